@@ -20,7 +20,7 @@ def sameKey (m : List StdCol) (r r' : Row) : Bool := m.all (fun c => cmpEq (r.st
 /-- the ON clause: every pair of tables `i1 < i2` agrees on every match attribute -/
 def onClause (m : List StdCol) : List Row → Bool
   | [] => true
-  | r :: rest => (rest.take 1).all (fun r2 => sameKey (m.drop 1) r r2) && onClause m rest
+  | r :: rest => rest.all (fun r' => sameKey m r r') && onClause m rest
 
 /-- the joined tuples -/
 def joinRows (m : List StdCol) (tables : List Table) : List (List Row) :=
